@@ -14,7 +14,7 @@ From Coq Require Import List NArith Bool String.
 From JV.lib Require Import Bytes.
 From JV.gen Require Import DirectiveTables TagName.
 From JV.model Require Import ScannerSem Core TagTitle Catalog.
-From JV.proofs Require Import CatalogProofs FaithfulProofs FaithfulExamples LocalityProofs OrderProofs FrameProofs InsertProofs LocalityExamples.
+From JV.proofs Require Import CatalogProofs FaithfulProofs FaithfulExamples LocalityProofs OrderProofs FrameProofs InsertProofs TagFrameProofs TagInsertProofs LocalityExamples.
 Import ListNotations.
 Open Scope N_scope.
 
@@ -192,3 +192,35 @@ Theorem insertion_example :
     c3 = upd_enums c (c_enums c3).
 Proof. exact LocalityExamples.insertion_example. Qed.
 Print Assumptions insertion_example.
+
+(* ======================================================================================= *)
+(* clause (b), TAG (proofs/TagFrameProofs.v, TagInsertProofs.v).  Only GET/POST/../Method (tags_for), Tags
+   (CheckTags) and Description read or write the tag collection: *)
+Theorem steps_do_not_touch_tags : forall bt banned S t anc b,
+  tag_kind (dk t) = false ->
+  add_directive bt banned t anc (set_tag S b) = cmap (set_tag S) (add_directive bt banned t anc b).
+Proof. exact add_directive_tag. Qed.
+Print Assumptions steps_do_not_touch_tags.
+
+(* TAG anywhere, under the hypothesis that NOTHING uses the name n (tag_step_ok n at every position of the
+   forest; decidable): no Tags directive names n, no interaction without a deciding Tags directive has the
+   automatic tag name n, no Description stands under a TAG named n.  Both directions (insertion / removal);
+   l1 = the tags declared before the position. *)
+Theorem tag_inserted : forall pp bt banned first a t b c',
+  tree_kids t = [] -> tag_node t = true -> kind_in KTAG banned = false ->
+  let n := named (tree_dir t) (bs "TagName") in
+  (forall p, In p (positions_all ((first :: a) ++ b)) -> tag_step_ok n (fst p) (snd p)) ->
+  (build pp bt banned ((first :: a) ++ t :: b) = COk c' <->
+   exists c l1 l2, build pp bt banned ((first :: a) ++ b) = COk c /\ n <> [] /\
+     ~ In n (map fst (map tag_entry (filter tag_node ((first :: a) ++ b)))) /\
+     c_tags c = l1 ++ l2 /\ map fst l1 = map fst (map tag_entry (filter tag_node (first :: a))) /\
+     c' = upd_tags c (l1 ++ tag_entry t :: l2)).
+Proof. exact tag_inserted_lemma. Qed.
+Print Assumptions tag_inserted.
+
+Theorem tag_insertion_example :
+  exists c c1, ex_build ex_full_forest = COk c /\ ex_build (ex_mid 2 ex_new_tag) = COk c1 /\
+    map fst (c_tags c) = [bs "@pets"; bs "@dogs"; bs "@rpc"] /\
+    map fst (c_tags c1) = [bs "@zz"; bs "@pets"; bs "@dogs"; bs "@rpc"] /\ c1 = upd_tags c (c_tags c1).
+Proof. exact LocalityExamples.tag_insertion_example. Qed.
+Print Assumptions tag_insertion_example.
